@@ -108,7 +108,12 @@ def oracle(case: dict):
             v = parser.parse_value(s)
         except Exception as e:  # noqa: BLE001
             return ("raises", f"parse_value({s!r}) raised {type(e).__name__}: {e}")
-        exp = spec_classify(s)
+        try:
+            exp = spec_classify(s)
+        except ValueError:
+            # CPython cannot convert this integer literal (digit limit): the table says int, the known finding is that
+            # parse_value raises; any other answer is a deviation
+            return ("table", f"parse_value({s[:20]!r}... {len(s)} chars) = {str(v)[:40]!r}, type table says an int of {len(s)} digits")
         if canon(v) != canon(exp):
             return ("table", f"parse_value({s!r}) = {v!r}, type table says {exp!r}")
         try:
